@@ -65,7 +65,7 @@ WITNESSES = [
 def top_op(req):
     if req.startswith("(f "):
         return "fold"
-    m = re.match(r"\((?:k|e) \d+ \(?([^ )]+)", req)
+    m = re.match(r"\((?:k|e|ks \d+|el \d+) \d+ \(?([^ )]+)", req)
     return m.group(1) if m else "?"
 
 
@@ -306,7 +306,7 @@ def run(ck):
     lens = collections.Counter()
     nontrivial = set()
     for q in reqs:
-        m = re.match(r"\((k|e) (\d+) ", q)
+        m = re.match(r"\((k|e|ks \d+|el \d+) (\d+) ", q)
         if not m:
             lens["constant-expression"] += 1
             nontrivial.add(q)
@@ -325,8 +325,10 @@ def run(ck):
         "distribution": {"batch_length": dict(lens), "top_operator": dict(stats["ops"]),
                          "impl_outcome": dict(stats["outcomes"]), "reason_tags": dict(stats["tags"]),
                          "reproduced_single_tag": dict(stats["reproduced"]),
-                         "kinds": {"k(direct kernels)": sum(1 for q in reqs if q.startswith("(k")),
-                                   "e(table scan + proj, unoptimised plan)": sum(1 for q in reqs if q.startswith("(e"))},
+                         "kinds": {"k(direct kernels)": sum(1 for q in reqs if q.startswith("(k ")),
+                                   "ks(direct kernels on slice(off..off+n) arrays)": sum(1 for q in reqs if q.startswith("(ks ")),
+                                   "el(expression above LIMIT n OFFSET off)": sum(1 for q in reqs if q.startswith("(el ")),
+                                   "e(table scan + proj, unoptimised plan)": sum(1 for q in reqs if q.startswith("(e "))},
                          "e2e_vs_direct_differ(string raw dropped by scan)": stats["e2e_direct_differ"],
                          "constant_folding": dict(stats["fold"])},
         "witnesses": witness_status,
